@@ -611,6 +611,10 @@ func backoffOne(r *hk.Run, mn, mx int64, a int) {
 			if a < 62 && mn < (1<<62)>>uint(a) && mn<<uint(a) < mx {
 				capped = mn << uint(a)
 			}
+			// "capped exponential backoff with jitter": never above min(max, min * 2^attempt)
+			if int64(d) > capped {
+				failCapped(r, hk.Failure{Sig: "backoff:above-capped-exponential:" + shape, What: "backoff interval above min(max, min * 2^attempt)", Input: in, Got: int64(d), Want: capped})
+			}
 			if int64(d) < capped/2 {
 				failCapped(r, hk.Failure{Sig: "backoff:below-half:" + shape, What: "backoff interval below half the capped exponential", Input: in, Got: int64(d), Want: capped / 2})
 			}
